@@ -232,13 +232,23 @@ class Set(Container):
     #
     # Attributes
     #
+    def _ensure_extremum(
+        self, candidate: _any.Any, relation: typing.Callable[[_any.Any, _any.Any], _any.Any], what: str
+    ) -> None:
+        # Elements that are sets themselves are only partially ordered (by inclusion), so the reduction above may end up
+        # with an arbitrary element, dependent on the iteration order, if none of them is comparable with all others.
+        if not all(relation(candidate, x) for x in self if x is not candidate):
+            raise _any.InvalidOperandError("The set %s has no %s element" % (self, what))
+
     def _attribute(self, name: "_primitive.String") -> _any.Any:
         if name.native_value == "min":
             out = functools.reduce(lambda a, b: a if _operator.less(a, b) else b, self)
             assert isinstance(out, self.element_type)
+            self._ensure_extremum(out, _operator.less_or_equal, "least")
         elif name.native_value == "max":
             out = functools.reduce(lambda a, b: a if _operator.greater(a, b) else b, self)
             assert isinstance(out, self.element_type)
+            self._ensure_extremum(out, _operator.greater_or_equal, "greatest")
         elif name.native_value == "count":  # "size" and "length" can be ambiguous, "cardinality" is long
             out = _primitive.Rational(len(self._value))
         else:
